@@ -1,7 +1,9 @@
 package checks
 
 import (
+	"encoding/json"
 	"fmt"
+	"math"
 	"math/rand"
 	"reflect"
 	"sort"
@@ -19,6 +21,32 @@ type memberSet struct {
 	obj     bool
 	root    map[string]interface{} // extra root members ($.x, $.y) when the container is nested under "m"
 	respell func(js string) string // optional: other spellings of the document's numbers (same values)
+	nan     bool                   // the sentinel number nanSentinel stands for NaN (float64 NaN / json.Number("NaN")): no JSON text spells it
+}
+
+// nanSentinel is written into generated members where the decoded document is to hold NaN.
+const nanSentinel = 12345.5
+
+func plantNaN(v interface{}) interface{} {
+	switch t := v.(type) {
+	case float64:
+		if t == nanSentinel {
+			return math.NaN()
+		}
+	case json.Number:
+		if t == "12345.5" {
+			return json.Number("NaN")
+		}
+	case map[string]interface{}:
+		for k, x := range t {
+			t[k] = plantNaN(x)
+		}
+	case []interface{}:
+		for i, x := range t {
+			t[i] = plantNaN(x)
+		}
+	}
+	return v
 }
 
 // selection runs `$.m[?(q)]` (or `$[?(q)]`) and maps the result back to member indices.
@@ -39,6 +67,9 @@ func (ms *memberSet) doc(useNum bool) (interface{}, string) {
 	js := lib.JS(root)
 	if ms.respell != nil {
 		js = ms.respell(js)
+	}
+	if ms.nan {
+		return plantNaN(lib.Decode(js, useNum)), js + " (12345.5 stands for NaN)"
 	}
 	return lib.Decode(js, useNum), js
 }
@@ -143,6 +174,11 @@ func randomMembers(r *rand.Rand, g *gen.Gen) *memberSet {
 				default:
 					o[k] = g.Leaf()
 				}
+			}
+			if r.Intn(12) == 0 {
+				// a number that is not ordered with respect to any other: NaN (only ever INSIDE a member, members are told apart by identity)
+				o[[]string{"a", "b"}[r.Intn(2)]] = nanSentinel
+				ms.nan = true
 			}
 			v = o
 		}
